@@ -462,7 +462,20 @@ func c14Program(r *RNG, graph bool) c14Prog {
 	return p
 }
 
+// c14Separators: operands are separated by exactly one space whatever they render to (empty strings in leading,
+// middle and trailing position), for every printing entry point; the expected text is what Go prints
+func (c *Ctx) c14Separators() {
+	src := "import \"fmt\"\ne := \"\"\nprintln(\"\", \"x\")\nprintln(\"\", \"\", true)\nprintln(\"a\", \"\", \"b\")\nprintln(\"a\", \"\")\nprintln(e, 1, e, 2.5, e)\nfmt.Println(\"\", 1)\nfmt.Println(e, e)\nprintln(\"%\", \"100%\", \"%d\")\n"
+	want := " x\n  true\na  b\na \n 1  2.5 \n 1\n \n% 100% %d\n"
+	out, err := runScript(src)
+	c.Rep.Oracle["operand-separators"]++
+	if err != nil || out != want {
+		c.Rep.Violate(Violation{Kind: "oracle", Cut: "operand-separators", Input: src, Impl: fmt.Sprintf("%q err=%v", out, err), Oracle: fmt.Sprintf("%q", want)})
+	}
+}
+
 func (c *Ctx) c14Scripts(n int) error {
+	c.c14Separators()
 	var progs []c14Prog
 	var lines []string
 	var starts []int
